@@ -246,6 +246,9 @@ def r4_stub_base_only(P, rep, ctx):
         rep.info("stub-only-as-base is enforced by an `assert` (removed under python -O): weak, not a violation")
     from .c05 import stub_refusal
 
+    if f"{MF}.merge_files" not in P.functions:
+        rep.fail("C10.R4", MF, "merge refusal", "IH5MFRecord no longer overrides merge_files: a file set that contains a stub is merged (or refused only after the merged container was written)", P.module(M).relpath)
+        return
     mf = P.func(f"{MF}.merge_files")
     mff = F(ctx, mf)
     sup = mff.calls("super().merge_files(___)")
